@@ -243,6 +243,8 @@ func (e *fsEnv) runItem(it fsItem, writeOrd int) (*fsOutcome, error) {
 		cmd = exec.Command("strace", "-f", "-o", "/dev/null", "-e", "trace="+it.Sys,
 			"-e", fmt.Sprintf("inject=%s:when=%d:error=EIO", it.Sys, it.At),
 			e.child, "store", dir, "node", pf)
+	case "pause-sys":
+		return e.runPauseItem(it, dir, pf)
 	default:
 		return nil, fmt.Errorf("unknown mode %s", it.Mode)
 	}
@@ -302,6 +304,89 @@ func (e *fsEnv) runItem(it fsItem, writeOrd int) (*fsOutcome, error) {
 	case !strings.HasPrefix(load2, "complete"):
 		o.sig = "C17/re-store-did-not-repair/" + where
 		o.detail = fmt.Sprintf("%s: after re-storing the node Load says %q (dir before: %s)", it, load2, o.listing)
+	}
+	return o, nil
+}
+
+// runPauseItem: writer A is held (strace delay) on entry to one of its storage syscalls while a
+// second writer B stores the same node and reads it back; then A finishes; then restart + verify.
+// The order "A up to syscall k, all of B, rest of A" is one interleaving of two writers of the
+// same name at syscall granularity.
+func (e *fsEnv) runPauseItem(it fsItem, dir, pf string) (*fsOutcome, error) {
+	const delayUS = 900000
+	a := exec.Command("strace", "-f", "-o", "/dev/null", "-e", "trace="+it.Sys,
+		"-e", fmt.Sprintf("inject=%s:when=%d:delay_enter=%d", it.Sys, it.At, delayUS),
+		e.child, "store", dir, "node", pf)
+	var aout bytes.Buffer
+	a.Stdout, a.Stderr = &aout, &aout
+	if err := a.Start(); err != nil {
+		return nil, err
+	}
+	time.Sleep(350 * time.Millisecond)
+	t0 := time.Now()
+	bout, berr := exec.Command(e.child, "storeload", dir, "node", pf).CombinedOutput()
+	bTook := time.Since(t0)
+	aerr := a.Wait()
+	if berr != nil {
+		return nil, fmt.Errorf("writer B: %v %s", berr, bout)
+	}
+	o := &fsOutcome{}
+	for _, l := range strings.Split(aout.String(), "\n") {
+		if strings.HasPrefix(l, "STORE ") {
+			o.storeOut = l
+		}
+	}
+	if o.storeOut == "" {
+		return nil, fmt.Errorf("writer A printed nothing: %v %q", aerr, aout.String())
+	}
+	var storeB, loadB string
+	for _, l := range strings.Split(string(bout), "\n") {
+		if strings.HasPrefix(l, "STOREB ") {
+			storeB = strings.TrimPrefix(l, "STOREB ")
+		}
+		if strings.HasPrefix(l, "LOADB ") {
+			loadB = strings.TrimPrefix(l, "LOADB ")
+		}
+	}
+	o.listing = dirListing(dir, "node")
+	vout, verr := exec.Command(e.child, "verify", dir, "node", pf).CombinedOutput()
+	if verr != nil {
+		return nil, fmt.Errorf("verify child: %v %s", verr, vout)
+	}
+	o.verify = "B: STOREB " + storeB + " / LOADB " + loadB + "\n" + strings.TrimSpace(string(vout))
+	var load1, store2, load2 string
+	for _, l := range strings.Split(string(vout), "\n") {
+		switch {
+		case strings.HasPrefix(l, "LOAD1 "):
+			load1 = strings.TrimPrefix(l, "LOAD1 ")
+		case strings.HasPrefix(l, "STORE2 "):
+			store2 = strings.TrimPrefix(l, "STORE2 ")
+		case strings.HasPrefix(l, "LOAD2 "):
+			load2 = strings.TrimPrefix(l, "LOAD2 ")
+		}
+	}
+	where := "pause-sys/" + it.Sys
+	overlapped := bTook < time.Duration(delayUS-400000)*time.Microsecond
+	_ = overlapped
+	switch {
+	case strings.HasPrefix(loadB, "WRONG"):
+		o.sig = "C17/partial-node-exposed/" + where
+		o.detail = fmt.Sprintf("%s: while writer A was held at %s, a second writer's read-back returned %s bytes without error", it, it.Sys, strings.TrimPrefix(loadB, "WRONG "))
+	case strings.HasPrefix(storeB, "ok") && !strings.HasPrefix(loadB, "complete"):
+		o.sig = "C17/successful-store-not-loadable/" + where
+		o.detail = fmt.Sprintf("%s: while writer A was held at %s, writer B's Store of the same node returned nil but its Load says %q", it, it.Sys, loadB)
+	case strings.HasPrefix(load1, "WRONG"):
+		o.sig = "C17/partial-node-exposed/" + where
+		o.detail = fmt.Sprintf("%s: after both writers finished Load returned %s bytes without error", it, strings.TrimPrefix(load1, "WRONG "))
+	case o.storeOut == "STORE ok" && !strings.HasPrefix(load1, "complete"):
+		o.sig = "C17/acked-write-incomplete/" + where
+		o.detail = fmt.Sprintf("%s: writer A's Store reported success but afterwards Load says %q", it, load1)
+	case !strings.HasPrefix(store2, "ok"):
+		o.sig = "C17/re-store-fails/" + where
+		o.detail = fmt.Sprintf("%s: re-storing failed: %s", it, store2)
+	case !strings.HasPrefix(load2, "complete"):
+		o.sig = "C17/re-store-did-not-repair/" + where
+		o.detail = fmt.Sprintf("%s: after re-storing Load says %q", it, load2)
 	}
 	return o, nil
 }
@@ -376,6 +461,9 @@ func (e *fsEnv) fsEnumerate(tier string, seed uint64) ([]fsItem, map[int]int, ma
 		for i, ev := range evs {
 			items = append(items, fsItem{Size: sz, Mode: "crash-sys", Sys: ev.name, At: ev.ord, Seq: i})
 			items = append(items, fsItem{Size: sz, Mode: "err-sys", Sys: ev.name, At: ev.ord, Seq: i})
+			if sz == 60 || (tier == "thorough" && sz > 4000) {
+				items = append(items, fsItem{Size: sz, Mode: "pause-sys", Sys: ev.name, At: ev.ord, Seq: i})
+			}
 		}
 	}
 	return items, writeOrd, recs, nil
@@ -417,9 +505,69 @@ func RunFileScenario(t *testing.T, sc *Scenario) *World {
 	w.log.Str(o.listing)
 	w.log.Str(o.verify)
 	if o.sig != "" {
-		w.viol = &Violation{Prop: sc.Property, Sig: o.sig, Detail: o.detail}
+		w.viol = &Violation{Prop: sc.Property, Sig: fsSigFor(sc.Property, o.sig), Detail: o.detail}
 	}
 	return w
+}
+
+// fsSigFor renames a file-store signature when the injection is run on behalf of C18
+// (two writers of the same name through the file back end).
+func fsSigFor(prop, sig string) string {
+	if prop == "C18" {
+		return "C18/file-concurrent-writers/" + strings.TrimPrefix(sig, "C17/")
+	}
+	return sig
+}
+
+// runFileConcurrency: the C18 clause "writing the same name and bytes again, sequentially or
+// concurrently, leaves it loadable" for the file back end: writer A held at each of its storage
+// syscalls while writer B stores and reads back the same node (see runPauseItem).
+func runFileConcurrency(env *ShardEnv, rep *ShardReport) {
+	e, err := newFsEnv()
+	if err != nil || !e.strace {
+		rep.Probes["file-concurrency-skipped-no-strace"]++
+		return
+	}
+	defer os.RemoveAll(e.work)
+	items, writeOrd, _, err := e.fsEnumerate("quick", env.Seed)
+	if err != nil {
+		rep.Truncated["harness"]++
+		return
+	}
+	n := 0
+	for _, it := range items {
+		if it.Mode != "pause-sys" {
+			continue
+		}
+		n++
+		if n%env.Shards != env.Shard {
+			continue
+		}
+		o, err := e.runItem(it, writeOrd[it.Size])
+		if err != nil {
+			rep.Truncated["harness"]++
+			continue
+		}
+		rep.Evaluations++
+		rep.OracleEvals++
+		rep.Faults["file-writer-held-at-syscall"]++
+		rep.Probes["file-two-writer-interleavings"]++
+		if o.sig == "" {
+			continue
+		}
+		sig := fsSigFor("C18", o.sig)
+		if k, ok := env.Known[sig]; ok {
+			rep.KnownHits[sig]++
+			rep.KnownWhat[sig] = k.Finding
+			continue
+		}
+		sc := itemToScenario("C18", env.Seed, it, writeOrd[it.Size])
+		sc.Signature, sc.Detail = sig, o.detail
+		os.MkdirAll(env.ReplayDir, 0o755)
+		path := filepath.Join(env.ReplayDir, fmt.Sprintf("C18-s%d-file-%x.json", env.Shard, fnv64([]byte(it.String()))&0xffffffff))
+		sc.Save(path)
+		rep.Violations = append(rep.Violations, ViolationReport{Property: "C18", Signature: sig, Detail: o.detail, Replay: path, Seed: env.Seed, OpsBefore: 1, OpsAfter: 1})
+	}
 }
 
 // RunFileStoreShard runs this shard's share of the enumeration.
@@ -458,7 +606,10 @@ func RunFileStoreShard(t *testing.T, env *ShardEnv) *ShardReport {
 			continue
 		}
 		// every injected run is executed twice and must be judged identically
-		o2, err := e.runItem(it, writeOrd[it.Size])
+		o2 := o1
+		if it.Mode != "pause-sys" || o1.sig != "" {
+			o2, err = e.runItem(it, writeOrd[it.Size])
+		}
 		rep.Evaluations++
 		rep.Steps += 2
 		rep.OracleEvals++
